@@ -99,7 +99,8 @@ def execute(cases_, tier, seed):
                 res.violations.append(Violation(wc.key, "missing-trait", "%s: bound assertion fails: %s" % (wc.id, a_errs[0]["msg"]), wc.placed,
                                                 expected="T: Debug + Clone + Serialize + DeserializeOwned + From<&T> (+ Copy/Eq/Ord/Hash where promised)",
                                                 observed=a_errs[:5], features=feats, items=sorted({e["msg"][:120] for e in a_errs})))
-            derive_errs = [e for e in m_errs if e["code"] in ("E0204", "E0277", "E0369")]
+            # only errors that arise inside the expansion of a #[derive(..)] the generated code carries (other type errors are C01's)
+            derive_errs = [e for e in m_errs if e["code"] in ("E0204", "E0277", "E0369") and e.get("derive")]
             if derive_errs:
                 res.violations.append(Violation(wc.key, "underivable-trait", "%s: a derived trait cannot be implemented: %s" % (wc.id, derive_errs[0]["msg"]), wc.placed,
                                                 expected="traits never appear on a type that cannot derive them", observed=derive_errs[:5], features=feats,
